@@ -46,6 +46,7 @@ type ScConf struct {
 	IdleSilent  [][]int `json:"idle_silent"`
 	IdleActive  [][]int `json:"idle_active"`
 	SkipHbRate  bool   `json:"skip_hb_rate"`
+	LegacyCtor  bool   `json:"legacy_ctor"` // the node is made by the deprecated NewNode(NodeConf) instead of Node.Initialize
 	ReuseMsgs   bool   `json:"reuse_msgs"` // writer goroutines reuse one message struct, changing it between calls
 	Sid         int    `json:"sid"`
 }
@@ -294,6 +295,7 @@ type player struct {
 	serialFailsLeft map[int]int
 	peerSeq   map[int]int
 	peerEnded map[[2]int]bool
+	nodeA     atomic.Pointer[gomavlib.Node] // what the hooks see (unset while the deprecated constructor is still running)
 	pktConns  map[int]net.PacketConn // fake UDP server of a udp_client endpoint / listener of a udp_broadcast endpoint
 	udpSrc    map[string]int         // udp_client: source address of the node's socket -> channel instance
 	serials   []*ctlRWC
@@ -310,8 +312,8 @@ func gateKey(point string, ep int) string { return fmt.Sprintf("%s@%d", point, e
 
 func (p *player) hook(point string, ch *gomavlib.Channel) {
 	ep := -1
-	if ch != nil && p.node != nil {
-		ep = gomavlib.VerifChannelEndpointIndex(p.node, ch)
+	if n := p.nodeA.Load(); ch != nil && n != nil {
+		ep = gomavlib.VerifChannelEndpointIndex(n, ch)
 	}
 	p.mu.Lock()
 	g := p.gates[gateKey(point, ep)]
